@@ -5,6 +5,7 @@ import (
 	"reflect"
 	"sort"
 	"strings"
+	"unicode/utf8"
 
 	"gopkg.in/yaml.v3"
 )
@@ -42,6 +43,10 @@ func yamlNode(v reflect.Value) (*yaml.Node, error) {
 
 		return yamlNode(v.Elem())
 	case reflect.String:
+		if !utf8.ValidString(v.String()) {
+			return yamlLeaf(v) // Mac Roman bytes, say: written as !!binary, as the library does
+		}
+
 		n := &yaml.Node{Kind: yaml.ScalarNode, Tag: "!!str", Value: v.String()}
 		if n.Value == "<<" || strings.ContainsAny(n.Value, "\n\r\t\u0085\u2028\u2029") {
 			n.Style = yaml.DoubleQuotedStyle
